@@ -35,12 +35,15 @@ type cev struct {
 }
 
 type world struct {
+	// lifecycle of the instances that fork by copy: which are hibernated now, and the first misuse seen
+	asleep     map[int]bool
+	sleepBug   string
 	cevs       []cev
 	triggered  []string
 	next       int
 	log        []string
 	cc, hc, bc []int
-	specs      []spec // by position in resolved order
+	specs      []spec               // by position in resolved order
 	lin        map[int]map[int]bool // lineage per instance: what it and its fork origins / merge partners consumed
 	cidx       map[plumbing.Hash]int
 }
@@ -75,6 +78,7 @@ func (r *rec) Configure(map[string]interface{}) error               { return nil
 func (r *rec) Initialize(*git.Repository) error                     { return nil }
 func (r *rec) Consume(deps map[string]interface{}) (map[string]interface{}, error) {
 	w := r.w
+	r.used("consumes a commit")
 	s := r.sp()
 	w.cc[r.pos]++
 	k := w.cc[r.pos]
@@ -122,7 +126,16 @@ func (r *rec) Consume(deps map[string]interface{}) (map[string]interface{}, erro
 	}
 	return out, nil
 }
+
+// used: an instance that is hibernated must not take part in anything until it is booted (C04, execution side)
+func (r *rec) used(what string) {
+	if !r.sp().shared && r.w.asleep[r.inst] && r.w.sleepBug == "" {
+		r.w.sleepBug = fmt.Sprintf("instance %d of item %d %s while it is hibernated", r.inst, r.pos, what)
+	}
+}
+
 func (r *rec) forkIDs(n int) []int {
+	r.used("is forked")
 	ids := make([]int, n)
 	for i := range ids {
 		if r.sp().shared {
@@ -151,6 +164,12 @@ func lst(ids []int) string {
 	return "[" + strings.Join(ss, ", ") + "]"
 }
 func (r *rec) logMerge(others []int) {
+	r.used("takes part in a merge")
+	for _, o := range others {
+		if !r.sp().shared && r.w.asleep[o] && r.w.sleepBug == "" {
+			r.w.sleepBug = fmt.Sprintf("instance %d of item %d takes part in a merge while it is hibernated", o, r.pos)
+		}
+	}
 	if !r.sp().shared {
 		if r.w.lin == nil {
 			r.w.lin = map[int]map[int]bool{}
@@ -214,6 +233,15 @@ func (r *recF) Merge(bs []core.PipelineItem) {
 	r.logMerge(o)
 }
 func (r *recF) Hibernate() error {
+	if !r.sp().shared {
+		if r.w.asleep == nil {
+			r.w.asleep = map[int]bool{}
+		}
+		if r.w.asleep[r.inst] && r.w.sleepBug == "" {
+			r.w.sleepBug = fmt.Sprintf("instance %d of item %d is hibernated twice", r.inst, r.pos)
+		}
+		r.w.asleep[r.inst] = true
+	}
 	r.w.hc[r.pos]++
 	r.w.log = append(r.w.log, fmt.Sprintf("H%d", r.inst))
 	if r.sp().hfail == r.w.hc[r.pos] {
@@ -223,6 +251,12 @@ func (r *recF) Hibernate() error {
 	return nil
 }
 func (r *recF) Boot() error {
+	if !r.sp().shared {
+		if !r.w.asleep[r.inst] && r.w.sleepBug == "" {
+			r.w.sleepBug = fmt.Sprintf("instance %d of item %d is booted while it is awake", r.inst, r.pos)
+		}
+		delete(r.w.asleep, r.inst)
+	}
 	r.w.bc[r.pos]++
 	r.w.log = append(r.w.log, fmt.Sprintf("B%d", r.inst))
 	if r.sp().bfail == r.w.bc[r.pos] {
@@ -231,10 +265,14 @@ func (r *recF) Boot() error {
 	}
 	return nil
 }
-func (r *recF) Dispose()            { r.w.log = append(r.w.log, fmt.Sprintf("D%d", r.inst)) }
+func (r *recF) Dispose() {
+	r.used("is disposed")
+	r.w.log = append(r.w.log, fmt.Sprintf("D%d", r.inst))
+}
 func (r *recF) Flag() string        { return fmt.Sprintf("r%02d", r.orig) }
 func (r *recF) Description() string { return "" }
 func (r *recF) Finalize() interface{} {
+	r.used("is finalized")
 	r.w.log = append(r.w.log, fmt.Sprintf("Z%d:%d", r.pos, r.inst))
 	return r.inst
 }
@@ -261,6 +299,26 @@ func il(l []int) string {
 
 func genParents(rng *rand.Rand, n int) [][]int {
 	var parents [][]int
+	if n >= 8 && rng.Intn(6) == 0 {
+		// a fan: 4-6 parallel branches of 1-2 commits from one root, joined by a single octopus merge (several
+		// branches lie idle - and are hibernated at small distances - until the merge boots them all at once)
+		k := 4 + rng.Intn(3)
+		parents = append(parents, nil)
+		var tips []int
+		for b := 0; b < k; b++ {
+			parents = append(parents, []int{0})
+			if rng.Intn(2) == 0 {
+				parents = append(parents, []int{len(parents) - 1})
+			}
+			tips = append(tips, len(parents)-1)
+		}
+		rng.Shuffle(len(tips), func(i, j int) { tips[i], tips[j] = tips[j], tips[i] })
+		parents = append(parents, tips)
+		for rng.Intn(2) == 0 {
+			parents = append(parents, []int{len(parents) - 1})
+		}
+		return parents
+	}
 	for c := 0; c < n; c++ {
 		var ps []int
 		if c > 0 && rng.Intn(12) != 0 {
@@ -296,6 +354,7 @@ func main() {
 		rng := rand.New(rand.NewSource(seed + int64(it)))
 		n := 1 + rng.Intn(14)
 		parents := genParents(rng, n)
+		n = len(parents)
 		commits := make([]*object.Commit, n)
 		w := &world{cidx: map[plumbing.Hash]int{}}
 		times := make([]int64, n)
@@ -462,6 +521,15 @@ func main() {
 		cls, what := oracle(w, plan, times, n, ni, err, res)
 		if what == "" {
 			cls, what = lineageOracle(w, parents)
+		}
+		if what == "" && len(w.triggered) == 0 {
+			// execution side of C04: nothing happens to a hibernated instance before it is booted, and after a
+			// successful run nothing is left hibernated
+			if w.sleepBug != "" {
+				cls, what = "run-hibernation", w.sleepBug
+			} else if err == nil && len(w.asleep) > 0 {
+				cls, what = "run-hibernation", fmt.Sprintf("%d item instances are left hibernated after a successful run", len(w.asleep))
+			}
 		}
 		if what != "" {
 			if (cls == "run-log" || cls == "run-lineage") && hasRedundantEdge(parents) {
